@@ -1439,7 +1439,8 @@ func (self *Analyzer) matchExpression(node pAst.MatchExpression) ast.AnalyzedMat
 		for _, lit := range arm.Literals {
 			if !lit.IsLiteral() {
 				defaultArmSpan = &arm.Range
-				action := self.expression(arm.Action)
+				// The action has been analyzed above: analyzing it again would report its diagnostics twice
+				// and double the work for every level of nested default arms.
 				defaultArm = &action
 				containsDefault = true
 			}
